@@ -214,6 +214,36 @@ theorem C17_text_to_rules (rules : List Rule) (h : ∀ r ∈ rules, ParseDoc.WFR
     parseDoc realDec (lex (LexDoc.docText rules)).toks = (rules, none) :=
   LexDoc.lex_parse_doc rules h
 
+/-- **The front end accepts the canonical text of every well-formed document and returns exactly its rules** (saliences
+    inside int32): no lexer error, grammatical — the question `front` asks with the accept-all decoder does not depend on the
+    decoder (`ParseSim.parseDoc_any`) — every literal decodes, verdict `accepted`. -/
+theorem C17_front_accepts_canonical (rules : List Rule) (h : ∀ r ∈ rules, ParseDoc.WFRule RealLiterals.Covered r ∧ LexDoc.LRule r)
+    (hs : rules.all salienceOk = true) :
+    front (LexDoc.docText rules) = { verdict := .accepted, rules := rules, lexErrs := 0, grammatical := true } :=
+  LexDoc.front_docText rules h hs
+
+/-- **Characters to knowledge base**: building the canonical text of a well-formed document whose rule names are distinct
+    and new reports no error and adds exactly its rules, each under its name with the description, salience, condition and
+    actions of the document; the existing entries stay in front, unchanged. -/
+theorem C17_canonical_text_builds (kb : KB) (rules : List Rule)
+    (h : ∀ r ∈ rules, ParseDoc.WFRule RealLiterals.Covered r ∧ LexDoc.LRule r) (hs : rules.all salienceOk = true)
+    (hdistinct : (rules.map (·.name)).Nodup) (hfresh : ∀ r ∈ rules, kb.contains r.name = false) :
+    (kb.buildText (LexDoc.docText rules)).2 = 0 ∧
+    (kb.buildText (LexDoc.docText rules)).1.entries = kb.entries ++ rules.map (fun r => { key := r.name, rule := r }) := by
+  have hf := LexDoc.front_docText rules h hs
+  have := C17_accepted_all_present kb (LexDoc.docText rules) (by rw [hf]) (by rw [hf]; exact hdistinct) (by rw [hf]; exact hfresh)
+  rw [hf] at this
+  exact ⟨this.1, this.2.2⟩
+
+/-- what the lexer admits is what the engine theorems call valid: the conditions of a document that can be written as
+    canonical text satisfy `validE` (names the snapshot theorems admit, no NaN constant), so the snapshot and
+    refinement theorems (C01, C07, C13) speak about every rule the front end reads from such a text -/
+theorem C17_lexable_is_valid (e : Expr) (h : LexDoc.LE e) : validE e = true := LexDoc.validE_of e h
+
+/-- grammaticality does not depend on the literal decoder -/
+theorem C17_grammatical_decoder_free (d : Dec) (ts : List Token) (rs : List Rule) (h : parseDoc d ts = (rs, none)) :
+    (parseDoc anyDec ts).2 = none := ParseSim.parseDoc_any d ts rs h
+
 /-- the lexer on any space-separated rendering of tokens that lex -/
 theorem C17_lex_render (ts : List Token) (h : ∀ t ∈ ts, LexRender.Lexes t) : lex (LexRender.render ts) = { toks := ts, errs := 0 } :=
   LexRender.lex_render ts h
@@ -258,6 +288,10 @@ theorem C17_leading_whitespace (ws cs : List Char) (h : ∀ c ∈ ws, isWs c = t
 #print axioms C17_parseDoc_roundtrip
 #print axioms C17_parseDoc_real
 #print axioms C17_text_to_rules
+#print axioms C17_front_accepts_canonical
+#print axioms C17_canonical_text_builds
+#print axioms C17_grammatical_decoder_free
+#print axioms C17_lexable_is_valid
 #print axioms C17_lex_render
 #print axioms Grule.LexDoc.sample_roundtrip
 #print axioms Grule.LexFixed.lexes_tk
